@@ -252,6 +252,23 @@ func (a *ActionSpec) FinalOutcome(from int) (invocations int, success bool) {
 	return invocations, false
 }
 
+// Stubborn: an overrunning invocation (Wrap >= 4) that keeps executing for stubbornHold of observed time AFTER its context
+// was cancelled — a plugin that is slow to honour (or ignores) cancellation.
+func (st Step) Stubborn() bool { return st.Out == Overrun && st.Wrap >= 4 }
+
+// HasStubborn reports whether any scripted step is a stubborn overrun.
+func (s *Scenario) HasStubborn() bool {
+	found := false
+	s.EachAction(func(r Ref, a *ActionSpec) {
+		for _, st := range a.Script {
+			if st.Stubborn() {
+				found = true
+			}
+		}
+	})
+	return found
+}
+
 // HasOverrun reports whether any scripted step overruns its timeout.
 func (s *Scenario) HasOverrun() bool {
 	found := false
